@@ -36,10 +36,13 @@ def render(p, rng, types_of):
 
     def stmt(s, ind):
         k = s["k"]
+        el = "(1)" if s.get("arr") else ""
         if k == "let":
-            return ind + "%s = %s" % (nm(s["b"], s["sfx"], rng), val_text(s["vt"], s["id"]))
+            return ind + "%s%s = %s" % (nm(s["b"], s["sfx"], rng), el, val_text(s["vt"], s["id"]))
         if k == "print":
-            return ind + "PRINT %s" % nm(s["b"], s["sfx"], rng)
+            return ind + "PRINT %s%s" % (nm(s["b"], s["sfx"], rng), el)
+        if k == "dimsfx" and s.get("arr"):
+            return ind + "DIM %s(3)" % nm(s["b"], s["sfx"], rng)
         if k == "dimas":
             return ind + "DIM %s%s AS %s" % ("SHARED " if s["shared"] else "", nm(s["b"], "", rng), TN[s["t"]])
         if k == "dimsfx":
@@ -49,6 +52,9 @@ def render(p, rng, types_of):
         if k == "const":
             return ind + "CONST %s = %s" % (nm(s["b"], s["sfx"], rng), val_text(s["vt"], s["id"]))
         if k == "call":
+            if p.get("params"):
+                q = p["params"][0]
+                return ind + "P %s%s" % (nm(q["argb"], q["t"], rng), "()" if q.get("arr") else "")
             return ind + "P"
         if k == "printlit":
             return ind + 'PRINT "%s"' % "".join(chr(c) for c in s["text"])
@@ -59,10 +65,22 @@ def render(p, rng, types_of):
 
     for s in p["main"]:
         lines.append(stmt(s, ""))
-    lines.append("SUB P")
+    if p.get("params"):
+        q = p["params"][0]
+        par = "()" if q.get("arr") else ""
+        if q["ext"]:
+            lines.append("SUB P (%s%s AS %s)" % (nm(q["b"], "", rng), par, TN[q["t"]]))
+        else:
+            lines.append("SUB P (%s%s)" % (nm(q["b"], q["t"], rng), par))
+    else:
+        lines.append("SUB P")
     for s in p["sub"]:
         lines.append(stmt(s, "  "))
     lines.append("END SUB")
+    for f in p.get("fn", []):
+        lines.append("FUNCTION %s" % nm(f["b"], f["t"], rng))
+        lines.append("  %s = %s" % (nm(f["b"], f["t"], rng), val_text(f["t"], f["id"])))
+        lines.append("END FUNCTION")
     return "\r\n".join(lines) + "\r\n"
 
 
@@ -187,6 +205,48 @@ def gen(tier, rng):
                     main = [mk("let", b, sfx=""), mk("print", b, sfx=""), dstmt, mk("print", b, sfx=""), mk("let", b, sfx=""), mk("print", b, sfx="")]
                     main += [mk("print", b, sfx=x) for x in SFX] + [{"k": "call"}]
                     progs.append(("defpos", build(d0, main, [mk("print", b, sfx=""), mk("let", b, sfx=""), mk("print", b, sfx=""), mk("print", b, sfx=t)])))
+    # a parameter of the SUB, scalar or array, declared with a suffix or AS type: inside the SUB its name (bare where the
+    # declaration allows it, or with its suffix) IS the caller's variable; other suffixes are other variables (suffix
+    # declaration) or rejected (AS type)
+    for t in TYPES:
+        for ext in (False, True):
+            for arr in (False, True):
+                for use_sfx in SFX:
+                    for act in ("print", "let"):
+                        argb = "QB" if arr else "QA"
+                        if arr and not ext and not (use_sfx == t or (use_sfx == "" and t == "S")):
+                            continue    # an undeclared array: implicit arrays are not supported (DESIGN 9.2), no oracle
+                        prm = {"b": "X", "t": t, "ext": ext, "argb": argb, "arr": arr}
+                        main = [mk("dimsfx", argb, sfx=t, shared=False, arr=arr)] if arr else []
+                        main += [mk("let", argb, sfx=t, arr=arr), {"k": "call"}, mk("print", argb, sfx=t, arr=arr)]
+                        sub_ops = [mk(act, "X", sfx=use_sfx, arr=arr), mk("print", "X", sfx=t, arr=arr)]
+                        pr = build([], main, sub_ops)
+                        pr["params"] = [prm]
+                        # the literal written by a LET inside the SUB must have the kind of the variable it names
+                        for o in pr["sub"]:
+                            if o["k"] == "let":
+                                o["vt"] = t if (use_sfx in ("", t) and (ext or use_sfx == t or (use_sfx == "" and t == "S"))) else (use_sfx or "S")
+                        progs.append(("param", pr))
+    # the name of a FUNCTION: every use and declaration of it, with every suffix, in main and inside a SUB
+    for t in TYPES:
+        for use_sfx in SFX:
+            for where in ("main", "sub"):
+                for kind in ("print", "let", "dimsfx", "dimas", "const"):
+                    if kind == "dimas":
+                        if use_sfx == "":
+                            continue
+                        op = mk("dimas", "F", t=use_sfx, shared=False)
+                    elif kind == "dimsfx":
+                        op = mk("dimsfx", "F", sfx=use_sfx, shared=False)
+                    else:
+                        op = mk(kind, "F", sfx=use_sfx)
+                    main = ([op] if where == "main" else []) + [{"k": "call"}, mk("print", "QA", sfx="I")]
+                    pr = build([], main, [op] if where == "sub" else [])
+                    pr["fn"] = [{"b": "F", "t": t, "id": 4}]
+                    for o in pr["main"] + pr["sub"]:
+                        if o["k"] == "let":
+                            o["vt"] = use_sfx or "S"
+                    progs.append(("fname", pr))
     # a constant defined from another constant: the name on the right resolves in the scope of the definition
     for gsfx in ("", "$"):
         for local_first in (True, False):
@@ -241,7 +301,9 @@ def strip(p):
     """the program as the spec sees it"""
     def st(s):
         return {k: v for k, v in s.items() if k != "vt"}
-    return {"defs": p["defs"], "main": [st(s) for s in p["main"]], "sub": [st(s) for s in p["sub"]], "params": []}
+    return {"defs": p["defs"], "main": [st(s) for s in p["main"]], "sub": [st(s) for s in p["sub"]],
+            "fn": p.get("fn", []),
+            "params": [{k: v for k, v in q.items() if k != "arr"} for q in p.get("params", [])]}
 
 
 def run(tier, replay):
@@ -287,8 +349,12 @@ def run(tier, replay):
         raise ToolError("TLC failed on Trace_Names:\n%s" % res2.violation)
     byid = {r["id"]: r for r in recs}
     nag = nskip = 0
+    agree_by, skip_by = {}, {}
     for ln in res2.printed:
         pp = ln.split(" ", 2)
+        if pp[0] in ("AGREE", "SKIP") and len(pp) > 1 and pp[1].isdigit() and int(pp[1]) in fams:
+            tgt = agree_by if pp[0] == "AGREE" else skip_by
+            tgt[fams[int(pp[1])][0]] = tgt.get(fams[int(pp[1])][0], 0) + 1
         if pp[0] == "AGREE":
             nag += 1
         elif pp[0] == "SKIP":
@@ -316,9 +382,10 @@ def run(tier, replay):
         "rule": "DEFtype: 5 types x 7 letter ranges (first / middle / last letter, crossing ranges) x 5 names; histories: every "
                 "single declaration/use statement of one base name (bare and 5 suffixes: assignment, PRINT, DIM AS each type, DIM "
                 "with each suffix, DIM SHARED forms, CONST) and every pair (sampled in quick) in main, every main declaration x "
-                "pairs of statements inside a SUB, seeded random histories over two base names; every occurrence of a name in "
+                "pairs of statements inside a SUB, seeded random histories over two base names; a SUB parameter (scalar / array, suffix / AS "
+                "type) used with every suffix; the name of a FUNCTION used / assigned / declared with every suffix in main and in a SUB; every occurrence of a name in "
                 "random letter case; all names printed at the end; distinct by upper-cased text",
-        "histories_by_family": byfam, "agree": nag, "unspecified_by_the_documents": nskip,
+        "histories_by_family": byfam, "agree_by_family": agree_by, "unspecified_by_family": skip_by, "agree": nag, "unspecified_by_the_documents": nskip,
         "design_check": {"module": "MC_Names", "distinct_states": states,
                          "invariants": ["DefaultIsSingle", "BareIsDefault", "SuffixesDistinct", "ExtendedExcludes", "LocalByDefault"]},
         "checker_cmd": res2.cmd, "exhaustive": False,
